@@ -90,6 +90,43 @@ func expandFlagGuards(gs []Guard, anchors []ssa.Value, depth int, busy map[*ssa.
 		return out
 	}
 	for _, g := range gs {
+		// a pointer handed out of a lookup (`rec := find(...)`; `if rec != nil`): known non-nil means it entered its
+		// phi web on one of the edges that carry a concrete value; what held on all of those edges holds here
+		if bo, isB := g.Cond.(*ssa.BinOp); isB && (bo.Op == token.NEQ || bo.Op == token.EQL) {
+			x, y := bo.X, bo.Y
+			if k, isK := x.(*ssa.Const); isK && k.Value == nil {
+				x, y = y, x
+			}
+			if k, isK := y.(*ssa.Const); isK && k.Value == nil && (bo.Op == token.NEQ) == g.True {
+				if ph, isPhi := stripCT(x).(*ssa.Phi); isPhi && !busy[ph] && len(anchors) == 0 {
+					sites, _ := ptrSites(ph)
+					if len(sites) > 0 {
+						var common []Guard
+						busy[ph] = true
+						for i, st := range sites {
+							cs := expandFlagGuards(condsAt(st.From, st.To), anchors, depth+1, busy)
+							if i == 0 {
+								common = cs
+							} else {
+								common = intersectGuards(common, cs)
+							}
+						}
+						delete(busy, ph)
+						for _, c := range common {
+							dup := false
+							for _, o := range out {
+								if sameGuard(o, c) {
+									dup = true
+								}
+							}
+							if !dup {
+								out = append(out, c)
+							}
+						}
+					}
+				}
+			}
+		}
 		f, w, ok := boolFlagOf(g.Cond)
 		if !ok || g.True != w {
 			continue
